@@ -42,6 +42,7 @@ fn emit<C: Command>(cmd: C) {
     println!("wire={}", hex(&conn.into_inner().out));
 }
 fn filt() -> Filter { Filter::tag(Tag::Artist, "x") }
+fn filt2() -> Filter { Filter::tag(Tag::Album, "y") }
 
 pub fn cmd(a: &[String]) {
     let mut p = P { a, i: 1 };
@@ -94,13 +95,13 @@ pub fn cmd(a: &[String]) {
         }
         "Find" => {
             let mut x = c::Find::new(filt());
-            if p.boolean() { x = x.sort(p.tag()); }
+            if p.boolean() { if p.boolean() { x = x.sort(Tag::Album); } x = x.sort(p.tag()); }
             if p.boolean() { x = x.window(p.rng_usize()); }
             emit(x)
         }
         "List" => {
             let mut x = c::List::new(p.tag());
-            if p.boolean() { x = x.filter(filt()); }
+            if p.boolean() { if p.boolean() { x = x.filter(filt2()); } x = x.filter(filt()); }
             if p.boolean() { emit(x.group_by([p.tag()])) } else { emit(x) }
         }
         "Count" => emit(c::Count::new(filt())),
@@ -108,7 +109,7 @@ pub fn cmd(a: &[String]) {
             let t = p.tag();
             if p.boolean() { emit(c::Count::new(filt()).group_by(t)); return; }
             let mut x = c::CountGrouped::new(t);
-            if p.boolean() { x = x.filter(filt()); }
+            if p.boolean() { if p.boolean() { x = x.filter(filt2()); } x = x.filter(filt()); }
             emit(x)
         }
         "RenamePlaylist" => { let (x, y) = (p.string(), p.string()); emit(c::RenamePlaylist::new(&x, &y)) }
